@@ -12,4 +12,4 @@ Extraction "../ocaml/C03/_build/c03_model.ml"
   normal_depth entry_depth aget instrs handler_ok contiguous find_handler
   opcode_of_byte opcode_name opcode_sig opcode_fields opcode_ret all_opcodes roles regs_of
   HANDLER_TRUNCATES_STACK HANDLER_TRUNCATES_BINDINGS
-  verify2 infer_full2 succs_tagged2 aget2 entry_depth2 iter_norm iter_exc needs_iter.
+  verify2 infer_full2 succs_tagged2 aget2 entry_depth2 iter_norm iter_exc needs_iter at_stack_empty in_drain.
